@@ -39,7 +39,7 @@ func init() {
 	Register(&Check{
 		ID: "C09", Level: "exploration", Tech: "deterministic simulation: raw-drive monitor after every call (secret markers in every encoding, clear-text STFS records, outer tar header fields) + restart with an unrelated identity",
 		Rule:      "seeded histories under {age,pgp} x compression x signature whose names, link targets and contents embed unique 20-character high-entropy markers and whose owners/timestamps are set to distinctive values; after every call the raw tape is searched for every marker raw, hex and base64 (3 alignments), for the distinctive owner/time values and for clear-text STFS PAX keys other than the wrapper, and every outer tar header must carry only size and the wrapper record; finally a fresh instance with an unrelated identity must fail both the index rebuild and every restore; non-trivial = at least 3 records with secrets on the tape; distinct by (config, op kinds)",
-		QuickRuns: 300, QuickSecs: 60, ThoroughRuns: 20000, ThoroughSecs: 1500,
+		QuickRuns: 700, QuickSecs: 60, ThoroughRuns: 20000, ThoroughSecs: 1500,
 		Assumptions: []string{"markers are 20 random alphanumerics: a chance match in ciphertext has probability < 2^-60 per tape", "record lengths and the fixed wrapper (PAX key STFS.EmbeddedHeader, tar framing) are allowed to be visible"},
 		Gen: func(r *rand.Rand, tier string, relax Relax) *Case {
 			c := &Case{Cfg: GenConfig(r, 0), P: map[string]int64{}, S: map[string]string{}}
@@ -50,7 +50,10 @@ func init() {
 			f2 = "/" + marker(r)
 			l1 = "/" + marker(r)
 			tag := uint32(r.IntN(1 << 20))
-			data := func(n int) *Data { tag++; return &Data{Len: n, Kind: []string{"text", "rand", "zeros"}[r.IntN(3)], Tag: tag} }
+			data := func(n int) *Data {
+				tag++
+				return &Data{Len: n, Kind: []string{"text", "rand", "zeros"}[r.IntN(3)], Tag: tag}
+			}
 			all := []Op{
 				{K: "mkdir", P: d1, M: 0o751},
 				{K: "mkdir", P: d2, M: 0o700},
